@@ -33,7 +33,8 @@ def run(rep, tier, seed):
     c1 = loadcheck.explore(rep, "MC_C01", n, emit=False, invariants=["RoundTrip"], props=[], extra_consts="CONSTRAINT EmitRT\n", prelude="Pre",
                            label="MC_C01 scripts up to %d items (templates with overlapping names, several registers per argument)" % n)
     c1 = [c for c in c1 if interesting(c)]
-    cfg = loadcheck.cfg_text(2, "Mains", "Items", emit=False, invariants=["IncludeIsInlining"], props=[], fs="FS7", basedir="W", extra_consts="CONSTRAINT EmitI\n")
+    cfg = loadcheck.cfg_text(2, "MainsQuick" if tier == "quick" else "Mains", "Items", emit=False, invariants=[], props=[], fs="FS7", basedir="W",
+                             extra_consts="CONSTRAINT EmitPlain\n")
     r7 = common.run_tlc("MC_C07", cfg, timeout=3000)
     common.require_ok(r7, "MC_C07")
     rep.add_tlc(r7, "MC_C07 include layouts x calls (callee mode sets {1,3,8}, {0,1}, {0,9}, {2,4})")
